@@ -85,10 +85,10 @@ def run(ctx, rep):
             elif name in ("iter::Iterator::collect", "iter::FromIterator::from_iter"):
                 n_alloc += 1
                 it = cs.args[0]
-                srcs = [x for x in it.subterms() if x.op == "payload" and x.args[1] == "Ok" and x.args[0].op == "fresh"]
+                srcs = [x for x in it.subterms() if x.op == "payload" and x.args[1] == "Ok"]
                 good = False
                 for s in srcs:
-                    src = an.calls_by_block.get(s.args[0].args[0][1])
+                    src = an.call_site_of(s)
                     if src is not None and src.callee_qual == "elf_stream::CachingReader::read_bytes":
                         good = True
                 good = good and it.op == "agg" and "ParsingIterator" in (it.args[1] or "")
